@@ -9,6 +9,8 @@
 #   through the guard-page/watchdog build AND the extracted model (correspondence: same answer, never CRASH/TIMEOUT/FUEL),
 #   * the same inputs through an ASan+UBSan build and a -O0 build (failing-input search engines: any sanitizer report,
 #     crash or timeout is a concrete C17 violation).
+# Replay files written from here carry 'area': 'conf' (harness h_conf / driver area conf) next to 'ops'; replay_conf(ctx, path)
+# re-runs them.
 # Standalone:  python3 checks/c17_conf.py [quick|thorough]   (builds proofs for Properties_C17_conf only).
 import sys, os
 sys.path.insert(0, os.path.join(os.path.dirname(os.path.abspath(__file__)), '..', 'tools'))
@@ -79,9 +81,8 @@ def run_conf(ctx, exe=None):
             ops.append('ac %d %d %s %s' % (f, d, tbl, hx(t)))
     ops += ['ac %d 0 %s %s' % (f, enc_table(t), hx(x)) for f, t, x in acm]
     # ---- correspondence: guard-page build vs model
-    il, deaths = run_ops(ctx, exe, ops, env={'QV_WATCHDOG': '5'})
-    ml, err = run_model(ctx, ops)
-    if err:
+    il, ml, err = both_conf(ctx, exe, ops, env={'QV_WATCHDOG': '5'})
+    if err and 'driver exit' in err:
         ctx.broken.append(('correspondence:conf17-model-run', err))
     nbad = 0
     for k, op in enumerate(ops):
@@ -95,7 +96,7 @@ def run_conf(ctx, exe=None):
         if a in ('CRASH', 'TIMEOUT', 'DIED'):
             obs = 'timeout' if a == 'TIMEOUT' else 'crash'
             ctx.report('impl-vs-spec', {'op': kind, 'observed': obs}, '%s parser: %s on arbitrary input' % ('INI-style' if kind == 'ini' else 'Apache-style', obs),
-                       {'ops': [ops[0], op], 'actual': a})
+                       {'area': 'conf', 'ops': [ops[0], op], 'actual': a})
         elif a != m:
             nbad += 1
             if nbad <= 6:
@@ -123,13 +124,13 @@ def run_conf(ctx, exe=None):
             m = re.search(r'(ERROR: AddressSanitizer: [^\n]*|runtime error: [^\n]*|SUMMARY: [^\n]*)', tail)
             ctx.report('impl-vs-spec', {'op': kind, 'observed': obs},
                        '%s parser: %s under %s' % ('INI-style' if kind == 'ini' else 'Apache-style', m.group(1) if m else 'process died', name),
-                       {'ops': [xops[0], op], 'build': name, 'stderr': tail[-800:]})
+                       {'area': 'conf', 'ops': [xops[0], op], 'build': name, 'stderr': tail[-800:]})
         for k, l in enumerate(sl):
             if l in ('CRASH', 'TIMEOUT'):
                 op = xops[k]
                 kind = op.split(' ')[0]
                 ctx.report('impl-vs-spec', {'op': kind, 'observed': 'timeout' if l == 'TIMEOUT' else 'crash'},
-                           '%s parser: %s under %s' % ('INI-style' if kind == 'ini' else 'Apache-style', l, name), {'ops': [xops[0], op], 'build': name})
+                           '%s parser: %s under %s' % ('INI-style' if kind == 'ini' else 'Apache-style', l, name), {'area': 'conf', 'ops': [xops[0], op], 'build': name})
     # ---- directed: deeply nested sections (stack use of the recursion: 4 KiB line buffer per level)
     deep = []
     for depth in (200, 1500, 2500, 6000):
@@ -146,6 +147,34 @@ def run_conf(ctx, exe=None):
             ctx.report('impl-vs-spec', sig, 'Apache-style parser: %s on %d nested sections' % (a, depth), {'ops': [op[:60] + '... (<a>\\n x %d)' % depth], 'depth': depth})
     ctx.assumptions += ['parser inputs are NUL-free byte strings; INI input in an exactly-sized buffer before an inaccessible page, Apache-style input in a temporary file',
                         'heap over-reads inside the parsers\' own copies are searched for with the ASan+UBSan build; the uninitialised-pointer class with a -O0 build']
+
+
+def replay_conf(ctx, path):
+    """--replay for a file produced by run_conf: returns True when the implementation now behaves (no crash/timeout, equals the model)."""
+    exe, msg = build(ctx, 'h_conf17')
+    if exe is None:
+        print(msg)
+        return False
+    d = json.load(open(path)).get('replay', {})
+    ops = d.get('ops', [])
+    good = True
+    builds = [(exe, {'QV_WATCHDOG': '5'})]
+    if d.get('build') == 'h_conf_asan':
+        x, _ = build(ctx, 'h_conf_asan', san='asan')
+        builds.append((x, {'ASAN_OPTIONS': 'detect_leaks=0', 'QV_WATCHDOG': '20'}))
+    if d.get('build') == 'h_conf_O0':
+        x, _ = build(ctx, 'h_conf_O0', cflags=['-O0'])
+        builds.append((x, {'QV_WATCHDOG': '5'}))
+    ml, _ = run_model(ctx, ops)
+    for x, envx in builds:
+        il, deaths = run_ops(ctx, x, ops, env=envx)
+        for i, o in enumerate(ops):
+            a = il[i] if i < len(il) else 'MISSING'
+            m = ml[i] if i < len(ml) else 'MISSING'
+            print('op    : %s\nimpl  : %s\nmodel : %s' % (o[:200], a[:200], m[:200]))
+            if a in ('CRASH', 'TIMEOUT', 'DIED', 'MISSING') or a != m:
+                good = False
+    return good
 
 
 if __name__ == '__main__':
